@@ -344,14 +344,44 @@ impl<'c, 'd> Parser<'c, 'd> {
         let mut operands = vec![];
 
         let number = self.decoder.bit32()?;
-        if let Some(g) = GInstTable::lookup_opcode(number as u16) {
+        // Opcodes are 16-bit numbers; anything larger cannot name an instruction.
+        let grammar = if number <= u32::from(u16::MAX) {
+            GInstTable::lookup_opcode(number as u16)
+        } else {
+            None
+        };
+        if let Some(g) = grammar {
             // TODO: check whether this opcode is allowed here.
             operands.push(dr::Operand::LiteralSpecConstantOpInteger(g.opcode));
 
             // We need all parameters to this SpecConstantOp.
             for loperand in g.operands {
-                if loperand.kind != GOpKind::IdResultType && loperand.kind != GOpKind::IdResult {
-                    operands.append(&mut self.parse_operand(loperand.kind)?);
+                match loperand.kind {
+                    GOpKind::IdResultType | GOpKind::IdResult => continue,
+                    // These kinds depend on the enclosing instruction and
+                    // cannot appear in a nested operation.
+                    GOpKind::LiteralContextDependentNumber
+                    | GOpKind::LiteralSpecConstantOpInteger
+                    | GOpKind::PairLiteralIntegerIdRef => {
+                        return Err(State::SpecConstantOpIntegerIncorrect(
+                            self.decoder.offset(),
+                            self.inst_index,
+                        ))
+                    }
+                    _ => (),
+                }
+                match loperand.quantifier {
+                    GOpCount::One => operands.append(&mut self.parse_operand(loperand.kind)?),
+                    GOpCount::ZeroOrOne => {
+                        if !self.decoder.limit_reached() {
+                            operands.append(&mut self.parse_operand(loperand.kind)?)
+                        }
+                    }
+                    GOpCount::ZeroOrMore => {
+                        while !self.decoder.limit_reached() {
+                            operands.append(&mut self.parse_operand(loperand.kind)?)
+                        }
+                    }
                 }
             }
             Ok(operands)
